@@ -455,8 +455,11 @@ ref::Pos forcing_back_rank(Tape& t, Report& rep)
 }
 
 // one depth-limited search checked against both halves of the property; returns false on a violation
+std::vector<std::string> g_c08_last_pv;  // pv of the final info line of the most recent c08 search
+
 bool c08_one(sl::Session& S, const ref::Pos& root, const std::string& kind, int depth, std::string& history, Report& rep)
 {
+    g_c08_last_pv.clear();
     std::vector<ref::Move> legal = ref::legal_moves(root);
     if (legal.empty()) return true;
     Position pos = br::from_fen(root);
@@ -477,6 +480,7 @@ bool c08_one(sl::Session& S, const ref::Pos& root, const std::string& kind, int 
         return true;
     }
     if (o.bestmoves.size() != 1) return true;  // C05's concern
+    if (!o.infos.empty()) g_c08_last_pv = o.infos.back().pv;
     // (1) a mate in one must be played
     std::vector<ref::Move> m1 = ref::mates_in_one(root);
     bool nontrivial = false;
@@ -613,10 +617,21 @@ bool prop_C08(Tape& t, Report& rep)
             // position at another distance from the root are now read)
             root = prevRoot;
             int plies = 1 + int(t.choose(2));
+            std::vector<std::string> pv = g_c08_last_pv;
             for (int k = 0; k < plies; ++k)
             {
                 std::vector<ref::Move> lm = ref::legal_moves(root);
                 if (lm.empty()) break;
+                // the game usually continues along the line the engine has just announced
+                if (k < int(pv.size()) && !t.chance(1, 4))
+                {
+                    auto it = std::find_if(lm.begin(), lm.end(), [&](const ref::Move& m) { return m.uci() == pv[size_t(k)]; });
+                    if (it != lm.end())
+                    {
+                        root = ref::make(root, *it);
+                        continue;
+                    }
+                }
                 // prefer the continuation a search would expect: checks and captures first
                 std::stable_sort(lm.begin(), lm.end(), [&](const ref::Move& a, const ref::Move& b) {
                     return int(ref::gives_check(root, a)) * 2 + int(ref::is_capture(root, a)) > int(ref::gives_check(root, b)) * 2 + int(ref::is_capture(root, b));
